@@ -197,6 +197,26 @@ impl Blob
         );
     }
 
+    /*  When a target has been recovered or downloaded, the file at that path is no longer
+        the file that the stored FileState describes.  Forget those FileStates, so that a
+        coinciding modified-time is never mistaken for an unchanged file. */
+    pub fn forget_file_states_of_replaced_files
+    (
+        self : &mut Self,
+        resolutions : &Vec<FileResolution>
+    )
+    {
+        for (file_info, resolution) in self.file_infos.iter_mut().zip(resolutions.iter())
+        {
+            match resolution
+            {
+                FileResolution::Recovered | FileResolution::Downloaded =>
+                    file_info.file_state = FileState::empty(),
+                _ => {},
+            }
+        }
+    }
+
     pub fn get_file_infos
     (
         self : &Self
